@@ -215,12 +215,82 @@ def run(tier, seed):
                 res.violations.append({"clause": "plaintext-reached-the-protocol", "signature": "C20:plaintext:" + b,
                                        "case": {"backend": b, "bytes": d.hex()[:120]}, "trace": {"inner_protocol_created": made, "handler_invoked": invoked, "gemini_like_reply": looks}})
         live_servers(res, tmp, cf, kf)
+        client_session_cases(res, tmp, cf, kf)
     finally:
         shutil.rmtree(tmp, ignore_errors=True)
     import livetls
     livetls.run_unusable_certificate(res, tier)
     res.rule += " | plus start_server with a key that does not belong to the certificate (both backends): nothing may answer a plaintext request"
     return res
+
+def client_session_cases(res, tmp, cf, kf):
+    """ "the client never completes one with a server that offers less" - through GeminiClient itself, not only through a freshly
+    built context: a host is visited and pinned over a modern handshake; the same host:port (same certificate) then offers at most
+    TLS 1.1 / 1.0 from a permissive stack.  Every further call - same client object, and a new one on the same trust store, get and
+    upload, TOFU on and off - must fail, and the old-version server must not see a completed handshake."""
+    import socket, threading, time
+    from pathlib import Path
+    from nauyaca.client.session import GeminiClient
+    class Srv(threading.Thread):
+        def __init__(self, port, ctx):
+            super().__init__(daemon=True)
+            self.ctx = ctx; self.sock = socket.socket(); self.sock.setsockopt(socket.SOL_SOCKET, socket.SO_REUSEADDR, 1)
+            self.sock.bind(("127.0.0.1", port)); self.sock.listen(8); self.sock.settimeout(0.2)
+            self.versions = []; self.halt = False
+        def run(self):
+            while not self.halt:
+                try: conn, _ = self.sock.accept()
+                except socket.timeout: continue
+                except OSError: break
+                try:
+                    conn.settimeout(1.5)
+                    tls = self.ctx.wrap_socket(conn, server_side=True)
+                    self.versions.append(tls.version())
+                    try:
+                        data = b""
+                        while b"\r\n" not in data:
+                            ch = tls.recv(4096)
+                            if not ch: break
+                            data += ch
+                        if b"\r\n" in data: tls.sendall(b"20 text/plain\r\nserved")
+                    except (OSError, ssl.SSLError): pass
+                    try: tls.close()
+                    except OSError: pass
+                except (ssl.SSLError, OSError):
+                    try: conn.close()
+                    except OSError: pass
+        def stop(self):
+            self.halt = True
+            try: self.sock.close()
+            except OSError: pass
+    def call(client, op, port):
+        async def go():
+            url = "gemini://localhost:%d/x" % port
+            try:
+                r = await (client.get(url, follow_redirects=False) if op == "get" else client.upload(url, b"data", mime_type="text/plain"))
+                return ["ok", r.status]
+            except Exception as e:
+                return ["error", type(e).__name__]
+        return asyncio.run(go())
+    modern = ssl.SSLContext(ssl.PROTOCOL_TLS_SERVER); modern.load_cert_chain(cf, kf)
+    for maxv in ("1.1", "1.0"):
+        for tofu in (True, False):
+            s = socket.socket(); s.bind(("127.0.0.1", 0)); port = s.getsockname()[1]; s.close()
+            db = Path(tmp) / ("sess-%s-%s.db" % (maxv, tofu))
+            client = GeminiClient(timeout=4.0, trust_on_first_use=tofu, tofu_db_path=db if tofu else None)
+            s1 = Srv(port, modern); s1.start()
+            first = call(client, "get", port); s1.stop(); s1.join(2); time.sleep(0.1)
+            s2 = Srv(port, permissive_std(True, maxv, (cf, kf))); s2.start()
+            outs = [("same client, get", call(client, "get", port)), ("same client, upload", call(client, "upload", port)), ("same client, get again", call(client, "get", port))]
+            fresh = GeminiClient(timeout=4.0, trust_on_first_use=tofu, tofu_db_path=db if tofu else None)
+            outs.append(("new client on the same trust store, get", call(fresh, "get", port)))
+            time.sleep(0.2); s2.stop(); s2.join(2)
+            res.evaluations += 1; res.count("client-session:" + maxv); res.nontriv(("client-session", maxv, tofu))
+            if first != ["ok", 20] or any(o[0] == "ok" for _, o in outs) or s2.versions:
+                res.violations.append({"clause": "the client never completes a handshake with a server that offers less than TLS 1.2 (through GeminiClient, host visited before)",
+                                       "signature": "C20:client-session",
+                                       "case": {"trust_on_first_use": tofu, "server_offers_at_most": "TLS " + maxv, "history": "one fetch over a modern handshake first (pins the host), then the same host:port and certificate offer only old versions"},
+                                       "trace": {"first_fetch": first, "later_calls": [[n, o] for n, o in outs], "handshakes_completed_by_the_old_server": s2.versions}})
 
 def live_servers(res, tmp, cf, kf):
     """start_server() itself, in its four TLS configurations, on a loopback port: a TLS client must be served, a client capped at
